@@ -406,6 +406,7 @@ func runC10(args []string) error {
 	}
 	r := newRng(*seed)
 	sm := newSummary("C10")
+	sm.RefMismatches = []refMismatch{}
 	nMain, nReg, maxLen := 1500, 150, 12
 	if *tier == "thorough" {
 		nMain, nReg, maxLen = 20000, 2000, 12
